@@ -2,8 +2,11 @@ package transcode
 
 import (
 	"fmt"
+	"io"
+	"net/http"
 	"strings"
 	"sync"
+	"time"
 
 	"google.golang.org/protobuf/proto"
 	"google.golang.org/protobuf/reflect/protoreflect"
@@ -287,5 +290,125 @@ func runConcC07(r *mon.Run, g *gen) {
 			}
 			r.Violate(key, fmt.Sprintf("%s %s?%s (%s) overlapping with requests for the same binding and the same query string but other path values: the handler received %s", f.item.req.Verb, f.item.req.Path, f.item.req.RawQuery, f.item.label, f.what), concCase("C07", f))
 		}
+	}
+}
+
+// runConcC04: concurrent GETs over REAL connections (loopback listener through
+// larking.NewServer) with self-describing replies of ~768 KiB, alternating
+// Accept: application/json / application/protobuf, 8 goroutines. Every client
+// must decode exactly the reply built for ITS request.
+func runConcC04(r *mon.Run) {
+	rules := []RuleSpec{{ID: "conc4:get", In: "vf.Req", Out: "vf.Rsp", Verb: "GET", Tmpl: "/cr/{a}"}}
+	e, err := buildDynamic(rules, "")
+	if err != nil {
+		r.Inconclusive("harness: " + err.Error())
+		return
+	}
+	defer e.close()
+	srv, err := e.server()
+	if err != nil {
+		r.Inconclusive("harness: cannot start listener: " + err.Error())
+		return
+	}
+	const size = 768 << 10
+	pattern := func(id string) []byte {
+		unit := []byte(fmt.Sprintf("<%s>", id))
+		b := make([]byte, 0, size+len(unit))
+		for len(b) < size {
+			b = append(b, unit...)
+		}
+		return b[:size]
+	}
+	e.rec.mu.Lock()
+	e.rec.replyFn = func(md protoreflect.MethodDescriptor, in proto.Message) proto.Message {
+		if md.Output().FullName() != "vf.Rsp" {
+			return nil
+		}
+		id := in.ProtoReflect().Get(md.Input().Fields().ByName("a")).String()
+		out := vschema.NewMsg(md.Output())
+		setStr(out.ProtoReflect(), "tag", id)
+		out.ProtoReflect().Set(md.Output().Fields().ByName("data"), protoreflect.ValueOfBytes(pattern(id)))
+		return out
+	}
+	e.rec.mu.Unlock()
+	type fail struct{ key, what string }
+	var mu sync.Mutex
+	var fails []fail
+	done := 0
+	var wg sync.WaitGroup
+	goroutines, perG := 8, r.Pick(40, 120)
+	for gi := 0; gi < goroutines; gi++ {
+		wg.Add(1)
+		go func(gi int) {
+			defer wg.Done()
+			cl := wire.H1Client()
+			for k := 0; k < perG; k++ {
+				id := fmt.Sprintf("g%dr%d", gi, k)
+				accept := []string{"application/json", "application/protobuf"}[(gi+k)%2]
+				req, _ := http.NewRequest("GET", srv.URL+"/cr/"+id, nil)
+				req.Header.Set("Accept", accept)
+				resp, err := cl.Do(req)
+				var f *fail
+				if err != nil {
+					f = &fail{"", "transport: " + err.Error()}
+				} else {
+					if (gi+k)%3 == 0 {
+						// a reader that lags: the server blocks in its socket write
+						time.Sleep(2 * time.Millisecond)
+					}
+					body, rerr := io.ReadAll(resp.Body)
+					resp.Body.Close()
+					rsp := vschema.NewMsg(vschema.Msg("vf.Rsp"))
+					ct := resp.Header.Get("Content-Type")
+					switch _, known, derr := decodeBy("", ct, body, rsp); {
+					case rerr != nil:
+						f = &fail{"", "transport: " + rerr.Error()}
+					case resp.StatusCode != 200:
+						f = &fail{"c04:concurrent:reply-not-delivered", fmt.Sprintf("status %d: %s", resp.StatusCode, bodySnippet(body))}
+					case !known || derr != nil:
+						f = &fail{"c04:concurrent:undecodable", fmt.Sprintf("Accept %s: %d body bytes under Content-Type %q do not decode: %v", accept, len(body), ct, derr)}
+					default:
+						rr := rsp.ProtoReflect()
+						tag := rr.Get(rr.Descriptor().Fields().ByName("tag")).String()
+						data := rr.Get(rr.Descriptor().Fields().ByName("data")).Bytes()
+						want := pattern(id)
+						if tag != id {
+							f = &fail{"c04:concurrent:reply-of-another-call", fmt.Sprintf("request %s received the reply tagged %q", id, tag)}
+						} else if string(data) != string(want) {
+							off := 0
+							for off < len(data) && off < len(want) && data[off] == want[off] {
+								off++
+							}
+							f = &fail{"c04:concurrent:wrong-reply", fmt.Sprintf("request %s: reply data (%d bytes) differs from the handler's reply at offset %d: got %q want %q", id, len(data), off, snip(data, off), snip(want, off))}
+						}
+					}
+				}
+				mu.Lock()
+				done++
+				if f != nil {
+					fails = append(fails, *f)
+				}
+				mu.Unlock()
+			}
+		}(gi)
+	}
+	wg.Wait()
+	e.rec.mu.Lock()
+	e.rec.replyFn = nil
+	e.rec.mu.Unlock()
+	r.Eval(done)
+	r.Count("c04_concurrent_real_connection_requests", done)
+	clean := true
+	for _, f := range fails {
+		if f.key == "" {
+			r.Inconclusive("concurrent lane: " + f.what)
+			continue
+		}
+		clean = false
+		r.Violate(f.key, "8 goroutines, GETs of ~768 KiB replies over real connections, Accept alternating json / protobuf: "+f.what,
+			&Case{Prop: "C04", Kind: "concurrent", Class: "real-connections", Note: "observed under concurrency over real connections; not replayable sequentially. " + f.what})
+	}
+	if clean {
+		r.Distinct("c04|concurrent|real-connections|768KiB-replies")
 	}
 }
